@@ -2079,17 +2079,56 @@ func boundReceiver(v reflect.Value, ptrRecv bool) *receiver {
 	return nil
 }
 
+// embeddedInterfacePath returns the index sequence of the embedded field of
+// interface type which provides the method name in struct type t, or nil.
+func embeddedInterfacePath(t *itype, name string, seen map[*itype]bool) []int {
+	for t != nil && (t.cat == ptrT || t.cat == linkedT) {
+		t = t.val
+	}
+	if t == nil || t.cat != structT || seen[t] {
+		return nil
+	}
+	seen[t] = true
+	for i, f := range t.field {
+		if !f.embed {
+			continue
+		}
+		if isInterfaceSrc(f.typ) {
+			if _, ok := f.typ.methods()[name]; ok {
+				return []int{i}
+			}
+			continue
+		}
+		if p := embeddedInterfacePath(f.typ, name, seen); p != nil {
+			return append([]int{i}, p...)
+		}
+	}
+	return nil
+}
+
 func getMethodByName(n *node) {
 	next := getExec(n.tnext)
 	value0 := genValue(n.child[0])
 	name := n.child[1].ident
 	i := n.findex
 	l := n.level
+	embPath := embeddedInterfacePath(n.child[0].typ, name, map[*itype]bool{})
 
 	n.exec = func(f *frame) bltn {
 		// The interface object must be directly accessible, or embedded in a struct (exported anonymous field).
 		val0 := value0(f)
 		val, ok := value0(f).Interface().(valueInterface)
+		if !ok && embPath != nil {
+			// The method is promoted from an embedded field of interface type.
+			v := val0
+			for _, fi := range embPath {
+				for v.Kind() == reflect.Ptr {
+					v = v.Elem()
+				}
+				v = v.Field(fi)
+			}
+			val, ok = v.Interface().(valueInterface)
+		}
 		if !ok {
 			// Search the first embedded valueInterface.
 			for val0.Kind() == reflect.Ptr {
@@ -2165,19 +2204,21 @@ func lookupMethodValue(val valueInterface, name string) (r reflect.Value, m *nod
 	if !isStruct(val.node.typ) {
 		return
 	}
-	v := val.value
-	for v.Type().Kind() == reflect.Ptr {
-		v = v.Elem()
+	// The method may be promoted from an embedded field of interface type, at any depth.
+	p := embeddedInterfacePath(val.node.typ, name, map[*itype]bool{})
+	if p == nil {
+		return
 	}
-	nf := v.NumField()
-	for i := 0; i < nf; i++ {
-		vi, ok := v.Field(i).Interface().(valueInterface)
-		if !ok {
-			continue
+	v := val.value
+	for _, fi := range p {
+		for v.Kind() == reflect.Ptr {
+			v = v.Elem()
 		}
+		v = v.Field(fi)
+	}
+	if vi, ok := v.Interface().(valueInterface); ok {
 		if r, m, li = lookupMethodValue(vi, name); m != nil {
-			li = append([]int{i}, li...)
-			return
+			li = append(p, li...)
 		}
 	}
 	return
